@@ -739,8 +739,38 @@ def ser_agree(m, i):
         return False
     if dm["status"] == "OK":
         return dm.get("n") == di.get("n") and masked_equal(dm.get("bytes", ""), di.get("bytes", "")) and \
-            norm_chunks(dm.get("chunks", "")) == norm_chunks(di.get("chunks", ""))
+            chunks_agree(dm.get("chunks", ""), di.get("chunks", ""))
     return True
+
+
+def chunk_bounds(s):
+    """(write boundaries, boundaries strictly inside a run of padding, flush positions) of a chunk list"""
+    pos, bounds, inside, flushes = 0, set(), set(), []
+    for x in s.split(","):
+        if not x:
+            continue
+        if x == "F":
+            flushes.append(pos)
+        elif x.startswith("p"):
+            n = int(x[1:])
+            for j in range(1, n + 1):
+                bounds.add(pos + j)
+                if j < n:
+                    inside.add(pos + j)
+            pos += n
+        else:
+            pos += int(x)
+            bounds.add(pos)
+    return bounds, inside, flushes
+
+
+def chunks_agree(model, impl):
+    """the implementation hands the writer the pieces the model says, except that it may write a run
+    of padding zeros in fewer calls than one per byte (how padding is chunked is no part of any
+    property; pieces of data, and padding merged with data, are)"""
+    bm, inside, fm = chunk_bounds(model)
+    bi, _, fi = chunk_bounds(impl)
+    return fm == fi and bi <= bm and (bm - bi) <= inside
 
 
 def norm_chunks(s):
